@@ -48,6 +48,8 @@ def main():
             d["caught_by"] = ", ".join(caught) if caught else "not caught: " + json.dumps(prev)
             json.dump(d, open(mp, "w"), indent=1)
             print(mid, out, flush=True)
+    # the runs regenerated lean/DxModel/Generated/*.lean from mutated sources: restore the committed tables
+    subprocess.run(["git", "checkout", "-q", "--", "lean/DxModel/Generated"], cwd=root)
 
 if __name__ == "__main__":
     main()
